@@ -195,3 +195,32 @@ def run(ctx):
             m.rel,
             cn.lineno,
         )
+
+    # ---- C20.9 check_cache never pairs a result with the call_hash of a different reduction ---------
+    # The scheduler treats a returned call_hash as "this job's call node already exists" and records nothing.  check_cache may try ultimate
+    # reduction first and then fall back to single reduction; the call_hash of the ultimate node may only be reported if that node's value was
+    # the one actually loaded.
+    r9 = ctx.rule("C20.9", "the call_hash returned by check_cache belongs to the reduction whose result is returned", floor=1)
+    cc = db.func("RedunBackendDb.check_cache")
+    c9 = CFG(cc)
+    assigns = [n for n in c9.nodes if n.kind == "stmt" and isinstance(n.ast, ast.Assign) and any(src(t) == "call_hash" for t in n.ast.targets) and not (isinstance(n.ast.value, ast.Constant) and n.ast.value.value is None)]
+    fallback = [n for n in c9.nodes if n.kind == "stmt" and isinstance(n.ast, ast.Assign) and "get_eval_cache" in src(n.ast.value)]
+    if not fallback:
+        raise AnalysisError("check_cache: single-reduction fallback (get_eval_cache) not found", "RedunBackendDb.check_cache")
+    for a in assigns:
+        if not any(c9.can_reach(a, f) for f in fallback):
+            r9.good(f"{db.rel}:RedunBackendDb.check_cache:call_hash@{a.lineno - cc.lineno}", "no fallback after this assignment")
+            continue
+        loaded = ("is_cached", True) in facts_at(c9, a)
+        resets = all(any(isinstance(x.ast, ast.Assign) and any(src(t) == "call_hash" for t in x.ast.targets) and c9.dominates(f, x) for x in c9.nodes if x.kind == "stmt" and x.ast is not None) for f in fallback)
+        r9.check(
+            loaded or resets,
+            f"{db.rel}:RedunBackendDb.check_cache:call_hash-before-load",
+            f"`{src(a.ast)}` is set before it is known that the node's value can be loaded; when it cannot (offloaded bytes lost, class no longer importable) the single-reduction fallback "
+            "returns its expression together with this call_hash: the scheduler re-evaluates the children but records no new call node, and the job stays linked to a node whose children "
+            "and result are those of the earlier run",
+            db.rel,
+            a.lineno,
+        )
+    if not assigns:
+        raise AnalysisError("check_cache: no assignment of call_hash found", "RedunBackendDb.check_cache")
